@@ -41,6 +41,7 @@ viol(const char * key, const char * fmt, ...)
 
 /* ---- running the loop with a guard timer ---- */
 static int guard_fired;
+static int busy_loop;
 
 static int
 guard_cb(void * cookie)
@@ -65,12 +66,21 @@ run_until(int * done, uint64_t guard_us)
 	if ((g = events_timer_register(guard_cb, NULL, &tv)) == NULL)
 		vh_die("guard timer");
 	while (!*done && !guard_fired) {
+		uint64_t t0 = simk_now_us;
+
 		if (events_run() != 0) {
 			viol("loop:events_run-failed", "events_run returned non-zero");
 			break;
 		}
-		if (++n > 2000000)
-			vh_die("run_until: too many iterations");
+		/* The loop neither finishes the request nor ever sleeps: a busy loop. */
+		if (simk_now_us != t0)
+			n = 0;
+		else if (++n > 300000) {
+			viol("hang:busy-loop", "300000 event-loop passes without the request completing "
+			    "or virtual time advancing");
+			busy_loop = 1;
+			break;
+		}
 	}
 	if (!guard_fired)
 		events_timer_cancel(g);
@@ -151,7 +161,8 @@ config_in(int fd, uint64_t key)
 	}
 	f->p_eintr = vh_chance(&R, 1, 2) ? 0 : 40;
 	f->p_spurious = vh_chance(&R, 1, 2) ? 0 : 40;
-	casesig = vh_fnv_u64(casesig, (uint64_t)end * 100 + f->seg_max);
+	f->end_signal = (int)vh_below(&R, 3);
+	casesig = vh_fnv_u64(casesig, (uint64_t)end * 100 + f->seg_max + (uint64_t)f->end_signal * 7);
 }
 
 static void
@@ -663,6 +674,9 @@ scenario_connect(void)
 		timeo.tv_sec = (time_t)(timeo_us / 1000000);
 		timeo.tv_usec = (suseconds_t)(timeo_us % 1000000);
 		c = network_connect_timeo(sas, &timeo, conn_cb, &q);
+		/* the caller's timeval may be reused as soon as the call returns */
+		timeo.tv_sec = 86400;
+		timeo.tv_usec = 0;
 	} else if (vh_chance(&R, 1, 4)) {
 		c = network_connect_bind(sas, &sa_store[0], conn_cb, &q);
 	} else
@@ -895,6 +909,11 @@ main(int argc, char ** argv)
 		else
 			scenario_accept();
 		printf("SIG %016llx 1\n", (unsigned long long)casesig);
+		if (busy_loop) {
+			/* the event loop is stuck with a permanently ready descriptor: start afresh */
+			fflush(NULL);
+			_exit(3);
+		}
 	}
 	printf("STAT read_requests %llu\nSTAT write_requests %llu\nSTAT connect_lists %llu\n"
 	    "STAT accept_requests %llu\nSTAT cancellations %llu\nSTAT eof_reported %llu\n"
